@@ -295,14 +295,15 @@ def cost_layer(draw, surface_label=''):
     if surface_label == 'district':
         k = draw(st.integers(0, 4))
         if k == 0:
-            blk.append(['Total District Heating Network Cost', fmt(draw(nice_floats(0, 100)))])
+            # (10 is the declared default: a figure typed by the user is supplied also when it equals the default)
+            blk.append(['Total District Heating Network Cost', fmt(draw(st.one_of(nice_floats(0, 100), st.just(10.0))))])
         elif k == 1:
             blk.append(['District Heating Network Piping Length', fmt(draw(nice_floats(0.5, 100)))])
         elif k == 2:
             blk.append(['District Heating Population', fmt(draw(nice_floats(100, 200000)))])
             blk.append(['District Heating Land Area', fmt(draw(nice_floats(1, 200)))])
         if draw(st.integers(0, 2)) == 0:
-            blk.append(['District Heating O&M Cost', fmt(draw(nice_floats(0, 5)))])
+            blk.append(['District Heating O&M Cost', fmt(draw(st.one_of(nice_floats(0, 5), st.just(1.0))))])
     if surface_label.startswith('cogen') and draw(st.integers(0, 3)) == 0:
         blk.append(['CHP Electrical Plant Cost Allocation Ratio', fmt(draw(nice_floats(0.05, 0.95)))])
         labels.append('chp_ratio_given')
